@@ -11,7 +11,8 @@ def extra_jobs(tier):
     C = sys.modules["ctparse.ctparse"]
     from ..harness.common import NPODS
     nw = 2 if tier == "quick" else 3
-    return [Job("C02.PODTABLE", "vq.harness.h_latent", "ob_podtable", timeout=300, bounds="all {} entries of the part-of-day table (index symbolic): start and end hour in 0..23".format(NPODS),
+    from .C01 import latent_doy_jobs
+    return latent_doy_jobs("C02") + [Job("C02.PODTABLE", "vq.harness.h_latent", "ob_podtable", timeout=300, bounds="all {} entries of the part-of-day table (index symbolic): start and end hour in 0..23".format(NPODS),
                 functions=["ctparse.types.pod_hours (live table)"], site="pod_hours"),
             Job("C02.SPAN-API", "vq.harness.h_api", "ob_embed", timeout=3600, path_timeout=120, env={"VQ_NWORDS": str(nw), "VQ_NTS": "1"},
                 bounds="12 expressions alone and embedded among 0..2 inert words each side, consecutive calls with the same reference time, latent on/off: the winner's span lies inside the text and delimits the expression",
